@@ -1,4 +1,5 @@
 import MpVerif.C15.Model
+import MpVerif.C15.Reentrant
 /-! Line driver for C15.  Input: `<mode> <macro>* | <gap>:<sig>*` (see harness/h_signal.cc); output: the
     canonical observation line predicted by the model.  Only parsing and printing here; every decision is
     taken by `MpVerif.C15` model functions (`wfProg`, `validSched`, `schedule`, `trace`). -/
@@ -33,15 +34,21 @@ def stateStr (s : St) : String :=
   let i := match s.intr with | .self => "S" | .obj => "O" | .dangling => "X"
   s!"[s{s.stop},h{s.handler},d{s.data},p{p},z{s.msgSize},i{i},I{b01 s.dispInt},T{b01 s.dispTerm}]"
 
-def sigToken (g : Sig) (obs : List Obs) (s : St) : String :=
-  let brk := obs.filterMap (fun o => match o with
-    | .brk n ok => some (if ok then s!"brk={n}" else s!"brk=!{n}")
-    | .brkFail => some "brk=E"
+/-- break text of one delivery; with a nested delivery both handlers write: the total number of bytes -/
+def brkToken (obs : List Obs) : String :=
+  let parts := obs.filterMap (fun o => match o with
+    | .brk n ok => some (if ok then some n else none)
     | _ => none)
+  if obs.any (fun o => o == .brkFail) then "brk=E"
+  else if parts.any (fun x => x.isNone) then "brk=!"
+  else s!"brk={(parts.map (fun x => x.getD 0)).foldl (· + ·) 0}"
+
+def sigToken (hd : String) (obs : List Obs) (s : St) : String :=
+  let brk := [brkToken obs]
   let cbs := obs.filterMap (fun o => match o with | .cb h d => some s!"{h}:{d}" | _ => none)
   let re := obs.filterMap (fun o => match o with | .rearm g => some (sigName g) | _ => none)
   let killed := obs.filterMap (fun o => match o with | .killed g => some (sigName g) | _ => none)
-  let head := s!"!{sigName g}("
+  let head := s!"!{hd}("
   if !killed.isEmpty then head ++ "killed=" ++ String.join killed ++ ")"
   else if obs.contains .exit1 then head ++ String.intercalate "," brk ++ ",exit=1)"
   else
@@ -55,9 +62,19 @@ def stepNames (L : Layout) : Macro → List String
     else ["sh.set.after_handler", "sh.set.after_data"]
   | m => (expand L m).map microName
 
-def evToken (e : Ev) (name : String) (obs : List Obs) (s : St) : String :=
+def placeName : NestAt → String
+  | .inWrite => "w"
+  | .inCallback => "c"
+  | .inRearm => "r"
+
+def specName (sp : SigSpec) : String :=
+  match sp.nested with
+  | none => sigName sp.g
+  | some (g', p) => sigName sp.g ++ "+" ++ sigName g' ++ placeName p
+
+def evToken (e : EvN) (name : String) (obs : List Obs) (s : St) : String :=
   match e with
-  | .sig g => sigToken g obs s
+  | .sig sp => sigToken (specName sp) obs s
   | .step .work =>
     let q := obs.filterMap (fun o => match o with | .query b => some (b01 b) | _ => none)
     "W(q=" ++ String.join q ++ ")" ++ stateStr s
@@ -78,10 +95,31 @@ def parseMacro (t : String) : Option Macro :=
     | _, _ => none
   | _ => none
 
-def parseSched (t : String) : Option (Nat × Sig) :=
+def parseSig : String → Option Sig
+  | "I" => some .int
+  | "T" => some .term
+  | _ => none
+
+def parsePlace : String → Option NestAt
+  | "w" => some .inWrite
+  | "c" => some .inCallback
+  | "r" => some .inRearm
+  | _ => none
+
+/-- `<gap>:<sig>` or `<gap>:<sig>+<sig>@<w|c|r>` (second signal raised inside the first one's handler) -/
+def parseSched (t : String) : Option (Nat × SigSpec) :=
   match t.splitOn ":" with
-  | [g, "I"] => g.toNat?.map (fun n => (n, Sig.int))
-  | [g, "T"] => g.toNat?.map (fun n => (n, Sig.term))
+  | [gap, spec] =>
+    match gap.toNat?, spec.splitOn "+" with
+    | some n, [a] => (parseSig a).map (fun g => (n, ⟨g, none⟩))
+    | some n, [a, rest] =>
+      match rest.splitOn "@" with
+      | [b, p] =>
+        match parseSig a, parseSig b, parsePlace p with
+        | some g, some g', some pl => some (n, ⟨g, some (g', pl)⟩)
+        | _, _, _ => none
+      | _ => none
+    | _, _ => none
   | _ => none
 
 /-- `<bsd|sysv>[/<stdout state>]`; stdout states file, pipe, null are writable, closed, full, ro are not -/
@@ -106,7 +144,7 @@ def parseMode (t : String) : Option Mode :=
     | _, _ => none
   | _ => none
 
-def renderTrace : List String → List (Ev × List Obs × St) → List String
+def renderTrace : List String → List (EvN × List Obs × St) → List String
   | _, [] => ["end"]
   | names, (e, obs, s) :: r =>
     let (name, names') := match e with
@@ -115,10 +153,14 @@ def renderTrace : List String → List (Ev × List Obs × St) → List String
     if s.halted.isSome then [evToken e name obs s] else evToken e name obs s :: renderTrace names' r
 
 def parseLayout : String → Option Layout
-  | "pinned" => some ⟨false, false⟩
-  | "ctorfix" => some ⟨true, false⟩
-  | "regfix" => some ⟨false, true⟩
-  | "fixed" => some ⟨true, true⟩
+  | "pinned" => some ⟨false, false, false⟩
+  | "ctorfix" => some ⟨true, false, false⟩
+  | "regfix" => some ⟨false, true, false⟩
+  | "fixed" => some ⟨true, true, false⟩
+  | "pinned+dtor" => some ⟨false, false, true⟩
+  | "ctorfix+dtor" => some ⟨true, false, true⟩
+  | "regfix+dtor" => some ⟨false, true, true⟩
+  | "fixed+dtor" => some ⟨true, true, true⟩
   | _ => none
 
 def handleLine (L : Layout) (line : String) : String :=
@@ -132,8 +174,8 @@ def handleLine (L : Layout) (line : String) : String :=
     | some md, some prog, some sch =>
       let micros := expandProg L prog
       let names := (prog.map (stepNames L)).flatten
-      if wfProg L prog && validSched micros.length sch then
-        String.intercalate " " (("start" ++ stateStr init) :: renderTrace names (trace md init (schedule micros 0 sch)))
+      if wfProg L prog && validSchedN micros.length sch then
+        String.intercalate " " (("start" ++ stateStr init) :: renderTrace names (traceN md init (scheduleN micros 0 sch)))
       else "bad-op"
     | _, _, _ => "bad-op"
 
